@@ -491,15 +491,25 @@ def _same_initial(v, wants, fld=None) -> bool:
 
 
 def _zero_block(prog, cn, fld, idx, value):
-    """self.F[:] = <typed zero array> * <length of F>  ->  (value is all zero, it covers exactly the array)"""
-    if idx != ("slc", C(None), C(None), C(None)):
-        return False, False
+    """self.F[:] = <typed zero array> * <length of F>   or   self.F[:n] = <typed zero array> * n  with n the allocation length
+    ->  (value is all zero, the store covers exactly the cells of the array).  A file mapping is longer than its cells (it ends with
+    the footer): there only the prefix form covers exactly the cells."""
+    mapped = "mmap" in typed_fields(prog, cn).get(fld, set())
+    lens = alloc_lengths(prog, cn, fld)
+
     def length_ok(n):
-        return (n[0] == "call" and n[1] == ("g", "len") and len(n[2]) == 1 and n[2][0][0] == "f" and n[2][0][1] == SELF and n[2][0][2] == fld) \
-            or n in alloc_lengths(prog, cn, fld)
+        return (not mapped and n[0] == "call" and n[1] == ("g", "len") and len(n[2]) == 1 and n[2][0][0] == "f" and n[2][0][1] == SELF and n[2][0][2] == fld) \
+            or n in lens
+    if idx == ("slc", C(None), C(None), C(None)):
+        upper = None
+    elif idx[0] == "slc" and len(idx) == 4 and idx[1] in (C(None), C(0)) and idx[3] in (C(None), C(1)) and idx[2] in lens:
+        upper = idx[2]
+    else:
+        return False, False
     if value[0] == "newb" and value[1] == "array" and len(value[3]) == 2 and value[3][0] == C("B") and value[3][1][0] == "call" \
             and value[3][1][1] == ("g", "bytes") and len(value[3][1][2]) == 1:
-        return True, length_ok(value[3][1][2][0])  # array('B', bytes(n)): n zero bytes
+        n = value[3][1][2][0]  # array('B', bytes(n)): n zero bytes
+        return True, (length_ok(n) and not mapped) if upper is None else n == upper
     if not (value[0] == "nary" and value[1] == "*" and len(value[2]) == 2):
         return False, False
     arr = [x for x in value[2] if x[0] == "newb" and x[1] == "array"]
@@ -508,8 +518,7 @@ def _zero_block(prog, cn, fld, idx, value):
         return False, False
     zero = arr[0][3][1] == ("lst", (C(0),))
     n = rest[0]
-    full = (n[0] == "call" and n[1] == ("g", "len") and len(n[2]) == 1 and n[2][0][0] == "f" and n[2][0][1] == SELF and n[2][0][2] == fld) \
-        or n in alloc_lengths(prog, cn, fld)
+    full = (length_ok(n) and not mapped) if upper is None else n == upper
     return zero, full
 
 
